@@ -1273,6 +1273,63 @@ func (fr *Frame) specBoolAt(x *SX, h Heap, b *ssa.BasicBlock, c Clause, _ bool) 
 	return env.boolTerm(x)
 }
 
+// localBefore resolves a local variable name just before instruction `at` (same block first).
+func (fr *Frame) localBefore(name string, at ssa.Instruction, h Heap) *SVal {
+	b := at.Block()
+	pos := -1
+	for i, in := range b.Instrs {
+		if in == at {
+			pos = i
+		}
+	}
+	for i := pos - 1; i >= 0; i-- {
+		if v := fr.localFromInstr(name, b.Instrs[i], h); v != nil {
+			return v
+		}
+	}
+	return fr.localAt(name, b, h)
+}
+
+func (fr *Frame) localFromInstr(name string, instr ssa.Instruction, h Heap) *SVal {
+	g := fr.g
+	switch in := instr.(type) {
+	case *ssa.DebugRef:
+		if in.Object() != nil && in.Object().Name() == name {
+			v, ok := fr.vals[in.X]
+			if !ok {
+				if c, isC := in.X.(*ssa.Const); isC {
+					v = fr.constVal(c)
+				} else {
+					return nil
+				}
+			}
+			if in.IsAddr {
+				el := in.X.Type().Underlying().(*types.Pointer).Elem()
+				a := v.A
+				if a == nil {
+					a = &Addr{Base: v.T, T: el}
+				}
+				return &SVal{V: fr.wrap(g.load(h, a), el), T: el}
+			}
+			return &SVal{V: v, T: in.X.Type()}
+		}
+	case *ssa.Phi:
+		if in.Comment == name {
+			if v, ok := fr.vals[in]; ok {
+				return &SVal{V: v, T: in.Type()}
+			}
+		}
+	case *ssa.Alloc:
+		if in.Comment == name {
+			if v := fr.vals[in]; v != nil {
+				el := in.Type().Underlying().(*types.Pointer).Elem()
+				return &SVal{V: fr.wrap(g.load(h, v.A), el), T: el}
+			}
+		}
+	}
+	return nil
+}
+
 // localAt resolves a source-level local variable name at the entry of block b.
 func (fr *Frame) localAt(name string, b *ssa.BasicBlock, h Heap) *SVal {
 	g := fr.g
